@@ -22,6 +22,8 @@ RULE = ("an exception is injected at every stage boundary of the three programs 
         "before and after the stage, for several exception types, with the output path absent / present with "
         "sentinel content / present together with older '#name.k#' backups, on 2 inputs per program; plus "
         "naturally failing inputs and fault-free runs. The output directory is hashed before and after. "
+        "After every failure that precedes the writing stage a second, successful gen_params run with another "
+        "output path follows in the same process and the failed run's directory is hashed again. "
         "Enumerated completely per tier (quick: one exception type for 'after' positions). non-trivial = a fault "
         "strictly inside the pipeline with a pre-existing file; distinct = (program, input, stage, position, "
         "exception, prior state)")
@@ -354,6 +356,28 @@ def check(spec, ctx):
             changed = sorted(set(after.items()) ^ set(before.items()))
             raise Violation(f"{program}:output_changed_on_failure",
                             f"failure at {label} (prior state {prior}): directory changed: {changed[:3]}")
+        writing = (program == "gen_params" and fault["stage"] in ("citation", "write_itp", "flush")) or \
+                  (program == "gen_coords" and (fault["stage"] == "flush" or
+                                                (fault["stage"] == "write_gro" and fault["pos"] != "before")))
+        if program != "gen_seq" and not flushed and not writing:
+            # the failure came before the writing stage: a later, successful run in the same process (another
+            # output path) must not bring the failed run's output into being either
+            from polyply.src.gen_itp import gen_params
+            follow_in, follow_out = ctx.dir / "follow_in", ctx.dir / "follow_out"
+            follow_in.mkdir()
+            follow_out.mkdir()
+            fkwargs = gp.write_inputs(gen_params_input(0), follow_in)
+            try:
+                gen_params(outpath=follow_out / "later.itp", **fkwargs)
+            except Exception as err:
+                raise crash("follow_up:crash", err)
+            later = snapshot(outdir)
+            if later != before:
+                changed = sorted(set(later.items()) ^ set(before.items()))
+                raise Violation(f"{program}:output_appears_after_later_run",
+                                f"failure at {label} (prior state {prior}); after a later successful run with another "
+                                f"output path the directory of the failed run changed: {changed[:3]}")
+            ctx.label("follow_up_run")
         ctx.label(f"fault_{program}")
         if natural:
             ctx.label("natural_failure")
